@@ -148,7 +148,7 @@ def list_repeat(ex, st, lst, n, node):
     used('[x] * n -> constant sequence of length n')
     if item is NONE:
         arr = z3.K(z3.IntSort(), z3.IntVal(0))
-        return st.alloc(VSeq(arr, Z(n), lambda t: NONE, tag='none'))
+        return st.alloc(VSeq(arr, Z(n), _optarr_wrap, tag='optarr'))
     if is_intsort(item):
         arr = z3.K(z3.IntSort(), Z(item))
         return st.alloc(VSeq(arr, Z(n), lambda t: t, tag='int'))
@@ -600,9 +600,25 @@ def unwrap_elem(ex, st, seq, v, node):
                 st.assume(T.d0(t) == Z(v.shape[0]), T.d1(t) == Z(v.shape[1]), T.d2(t) == Z(v.shape[2]))
                 return t
             return v.t
+        if isinstance(v, VOpaque) and ex.lenient:
+            return ex.fresh('core', T.Core)          # lenient tier: some core, nothing known about it
         raise Unsupported('storing a non-3-D value into a TT list')
     if seq.tag == 'int':
         return Z(ex.need_num(st, v, node))
+    if seq.tag == 'optarr':
+        v = st.deref(v)
+        if v is NONE:
+            return z3.IntVal(0)
+        if isinstance(v, (VArr, VOpaque)):
+            c = ex.fresh_int('arrcode')
+            st.assume(c != 0)
+            return c
+        if isinstance(v, VOpt):
+            c = ex.fresh_int('arrcode')
+            st.assume((c == 0) == v.isnone)
+            return c
+    if seq.tag == 'opaque':
+        return ex.fresh_int('elem')
     raise Unsupported(f'store into sequence of kind {seq.tag}')
 
 
@@ -713,6 +729,10 @@ def _iter_of_value(ex, st, v, node):
     if isinstance(v, VOpt):
         ex.oblige(st, 'safety', 'iterated-value-not-None', z3.Not(v.isnone), node)
         return _iter_of_value(ex, st, v.val, node)
+    if isinstance(v, VOpaque) and ex.lenient:
+        n = ex.fresh_int('niter')
+        st.assume(n >= 0)
+        return n, (lambda j: VOpaque('elem')), False
     if isinstance(v, Iteration):
         return v.n, v.bind, v.concrete is not None
     raise Unsupported(f'iteration over {type(v).__name__} at line {node.lineno}')
@@ -767,6 +787,11 @@ def iteration(ex, st, it, node):
     return Iteration(n=n, bind=lambda ex_, st_, j: elem(j))
 
 
+def _optarr_wrap(t):
+    """Element of a list of optional arrays: code 0 = None, anything else = some (uninterpreted) array."""
+    return VOpt(t == 0, VOpaque('array'))
+
+
 def listcomp(ex, st, e):
     if len(e.generators) != 1:
         raise Unsupported('list comprehension with several generators')
@@ -803,7 +828,10 @@ def listcomp(ex, st, e):
         del st.pc[mark:]
         used('[expr for x in seq] -> sequence of the same length with expr at a generic index')
         if elt is NONE:
-            return st.alloc(VSeq(z3.K(z3.IntSort(), z3.IntVal(0)), it.n, lambda t: NONE, tag='none'))
+            return st.alloc(VSeq(z3.K(z3.IntSort(), z3.IntVal(0)), it.n, _optarr_wrap, tag='optarr'))
+        if isinstance(elt, VOpaque):
+            return st.alloc(VSeq(ex.fresh('lc', z3.ArraySort(z3.IntSort(), z3.IntSort())), it.n,
+                                 lambda t: VOpaque('elem'), tag='opaque'))
         if is_intsort(elt):
             arr = ex.fresh('lc', z3.ArraySort(z3.IntSort(), z3.IntSort()))
             st.assume(z3.ForAll([j], z3.Implies(z3.And(j >= 0, j < it.n), arr[j] == Z(elt)), patterns=[arr[j]]))
@@ -1107,6 +1135,9 @@ def reshape(ex, st, a, shp, order, node):
         size = T.mul_canon(*shp)
         ex.oblige(st, 'call-pre', 'reshape-preserves-size', Z(a.shape[0]) == size, node)
         return VArr(tuple(shp), None, None, a.dtype)
+    if ex.lenient:
+        used('reshape (unrecognised pattern) -> opaque array (lenient tier)')
+        return VOpaque('reshape')
     raise Unsupported(f'reshape pattern {a.shape} -> {shp} (order {o}) at line {node.lineno}')
 
 
